@@ -11,9 +11,9 @@
     * names are resolved dynamically — a function body runs in a child scope of the CALLER's scope;
     * EXIT inside a function body (the parser forbids it) would only end that function.
 -/
-import Csvq.Lemmas.Scope
+import Csvq.Lemmas.ScopeGen
 namespace Csvq.C15
-open Csvq Csvq.Scope
+open Csvq Csvq.Scope Csvq.ScopeGen
 
 /-! ## refinement: the Go-shaped interpreter and the reference semantics agree -/
 
@@ -412,6 +412,275 @@ theorem exit_terminates_all :
   · intro fuel p s h
     rw [exec_refines]
     simp [execSpec, h, St.obs]
+
+/-! ## the tie to the source: walks over the block stack REGENERATED from reference_scope.go on every run
+   (extract/scopefacts → Csvq/Gen/ScopeFacts.lean) are the model's lookups, for all block stacks -/
+
+
+theorem gen_getVariable_eq_model (x : Nat) (v : SVal) : ∀ bs : List Block,
+    Gen.Scope.getVariable (varCall x v) bs =
+      match getVar x bs with
+      | some w => .found bs (some w)
+      | none => .raised bs "NewUndeclaredVariableError"
+  | [] => rfl
+  | b :: rest => by
+    simp only [Gen.Scope.getVariable, varCall, getVar, gen_getVariable_eq_model x v rest]
+    cases aget x b.vars with
+    | some w => rfl
+    | none =>
+      simp only [Option.isSome]
+      cases getVar x rest <;> rfl
+
+theorem gen_substituteVariable_eq_model (x : Nat) (v : SVal) : ∀ bs : List Block,
+    (Gen.Scope.substituteVariableDirectly (varCall x v) bs).toOption = setVar x v bs ∧
+    (Gen.Scope.substituteVariable (varCall x v) bs).toOption = setVar x v bs
+  | [] => ⟨rfl, rfl⟩
+  | b :: rest => by
+    have ih := gen_substituteVariable_eq_model x v rest
+    simp only [Gen.Scope.substituteVariableDirectly, Gen.Scope.substituteVariable, varCall, setVar]
+    cases aget x b.vars with
+    | some w => exact ⟨rfl, rfl⟩
+    | none =>
+      simp only []
+      rw [← ih.1]
+      constructor
+      · cases Gen.Scope.substituteVariableDirectly (varCall x v) rest <;> rfl
+      · rw [ih.1, ← ih.2]
+        cases Gen.Scope.substituteVariable (varCall x v) rest <;> rfl
+
+
+theorem gen_disposeVariable_eq_model (x : Nat) (v : SVal) : ∀ bs : List Block,
+    (Gen.Scope.disposeVariable (varCall x v) bs).toOption = disposeVar x bs
+  | [] => rfl
+  | b :: rest => by
+    have ih := gen_disposeVariable_eq_model x v rest
+    simp only [Gen.Scope.disposeVariable, varCall, disposeVar]
+    cases aget x b.vars with
+    | some w => rfl
+    | none =>
+      simp only []
+      rw [← ih]
+      cases Gen.Scope.disposeVariable (varCall x v) rest <;> rfl
+
+theorem gen_declareVariable_eq_model (x : Nat) (v : SVal) (bs : List Block) :
+    (Gen.Scope.declareVariableDirectly (varCall x v) bs).toOption = declareVar x v bs ∧
+    (Gen.Scope.declareVariable (varCall x v) bs).toOption = declareVar x v bs := by
+  cases bs with
+  | nil => exact ⟨rfl, rfl⟩
+  | cons b rest =>
+    simp only [Gen.Scope.declareVariableDirectly, Gen.Scope.declareVariable, varCall, declareVar]
+    cases aget x b.vars <;> exact ⟨rfl, rfl⟩
+
+theorem gen_temporaryTableExists_eq_model (x : Nat) (v : SVal) : ∀ bs : List Block,
+    (Gen.Scope.temporaryTableExists (varCall x v) bs).toOption.isSome = (getVar x bs).isSome
+  | [] => rfl
+  | b :: rest => by
+    have ih := gen_temporaryTableExists_eq_model x v rest
+    simp only [Gen.Scope.temporaryTableExists, varCall, getVar]
+    cases aget x b.vars with
+    | some w => rfl
+    | none =>
+      simp only [Option.isSome_none, Bool.false_eq_true, if_false]
+      rw [← ih]
+      cases Gen.Scope.temporaryTableExists (varCall x v) rest <;> rfl
+
+theorem gen_replaceTemporaryTable_eq_model (x : Nat) (v : SVal) : ∀ bs : List Block,
+    (Gen.Scope.replaceTemporaryTable (varCall x v) bs).toOption = setVar x v bs
+  | [] => rfl
+  | b :: rest => by
+    have ih := gen_replaceTemporaryTable_eq_model x v rest
+    simp only [Gen.Scope.replaceTemporaryTable, varCall, setVar]
+    cases h : aget x b.vars with
+    | some w => simp [Walk.toOption]
+    | none =>
+      simp only [Option.isSome]
+      rw [← ih]
+      cases Gen.Scope.replaceTemporaryTable (varCall x v) rest <;> rfl
+
+theorem gen_disposeTemporaryTable_eq_model (x : Nat) (v : SVal) : ∀ bs : List Block,
+    (Gen.Scope.disposeTemporaryTable (varCall x v) bs).toOption = disposeVar x bs
+  | [] => rfl
+  | b :: rest => by
+    have ih := gen_disposeTemporaryTable_eq_model x v rest
+    simp only [Gen.Scope.disposeTemporaryTable, varCall, disposeVar]
+    cases aget x b.vars with
+    | some w => rfl
+    | none =>
+      simp only []
+      rw [← ih]
+      cases Gen.Scope.disposeTemporaryTable (varCall x v) rest <;> rfl
+
+theorem gen_setTemporaryTable_eq_model (x : Nat) (v : SVal) (bs : List Block) (h : getVar x bs = none) :
+    (Gen.Scope.setTemporaryTable (varCall x v) bs).toOption = declareVar x v bs ∨ bs = [] := by
+  cases bs with
+  | nil => exact Or.inr rfl
+  | cons b rest =>
+    left
+    simp only [getVar] at h
+    simp only [Gen.Scope.setTemporaryTable, varCall, declareVar]
+    cases hb : aget x b.vars with
+    | some w => simp [hb] at h
+    | none => rfl
+
+theorem gen_getFunction_eq_model (f : Nat) (d : FDecl) : ∀ bs : List Block,
+    (Gen.Scope.getFunction (fnCall f d) bs).value = (getFn f bs).map (fun g => some (.inl g))
+  | [] => rfl
+  | b :: rest => by
+    have ih := gen_getFunction_eq_model f d rest
+    simp only [Gen.Scope.getFunction, fnCall, getFn]
+    cases aget f b.funs with
+    | some w => rfl
+    | none =>
+      simp only [Option.isSome]
+      rw [← ih]
+      cases Gen.Scope.getFunction (fnCall f d) rest <;> rfl
+
+theorem gen_disposeFunction_eq_model (f : Nat) (d : FDecl) : ∀ bs : List Block,
+    (Gen.Scope.disposeFunction (fnCall f d) bs).toOption = Scope.disposeFn f bs
+  | [] => rfl
+  | b :: rest => by
+    have ih := gen_disposeFunction_eq_model f d rest
+    simp only [Gen.Scope.disposeFunction, fnCall, Scope.disposeFn]
+    cases aget f b.funs with
+    | some w => rfl
+    | none =>
+      simp only []
+      rw [← ih]
+      cases Gen.Scope.disposeFunction (fnCall f d) rest <;> rfl
+
+theorem gen_declareFunction_eq_model (f : Nat) (d : FDecl) (bs : List Block) (h : bs ≠ []) :
+    (Gen.Scope.declareFunction (fnCall f d) bs).toOption = (declareFn f d bs).toOption := by
+  cases bs with
+  | nil => exact absurd rfl h
+  | cons b rest =>
+    simp only [Gen.Scope.declareFunction, fnCall, declareFn]
+    cases aget f b.funs with
+    | some w => rfl
+    | none =>
+      simp only []
+      cases dupParams d.params <;> rfl
+
+theorem gen_cursorWalks_eq_find (c : Nat) : ∀ bs : List Block,
+    Gen.Scope.openCursor (curCall c) bs = cursorFind .open c bs ∧
+    Gen.Scope.closeCursor (curCall c) bs = cursorFind .close c bs ∧
+    Gen.Scope.fetchCursor (curCall c) bs = cursorFind .fetch c bs
+  | [] => ⟨rfl, rfl, rfl⟩
+  | b :: rest => by
+    obtain ⟨ih1, ih2, ih3⟩ := gen_cursorWalks_eq_find c rest
+    simp only [Gen.Scope.openCursor, Gen.Scope.closeCursor, Gen.Scope.fetchCursor, curCall, cursorFind, getVar, setVar, ih1, ih2, ih3]
+    cases hb : aget c b.vars with
+    | some s =>
+      simp only []
+      refine ⟨?_, ?_, ?_⟩
+      · rcases curStep .open s with _ | ⟨s', ov⟩ <;> rfl
+      · rcases curStep .close s with _ | ⟨s', ov⟩ <;> rfl
+      · rcases curStep .fetch s with _ | ⟨s', ov⟩ <;> rfl
+    | none =>
+      simp only []
+      cases getVar c rest with
+      | none => exact ⟨rfl, rfl, rfl⟩
+      | some s =>
+        simp only []
+        refine ⟨?_, ?_, ?_⟩
+        · rcases curStep .open s with _ | ⟨s', ov⟩
+          · rfl
+          · simp only []; cases setVar c s' rest <;> rfl
+        · rcases curStep .close s with _ | ⟨s', ov⟩
+          · rfl
+          · simp only []; cases setVar c s' rest <;> rfl
+        · rcases curStep .fetch s with _ | ⟨s', ov⟩
+          · rfl
+          · simp only []; cases setVar c s' rest <;> rfl
+
+/-- OPEN / CLOSE / FETCH of the model ARE the walks of OpenCursor / CloseCursor / FetchCursor as they stand in
+    reference_scope.go (run on the model's cursor variables), followed by the assignment of the fetched value -/
+theorem gen_cursor_eq_model (c x : Nat) (bs : List Block) :
+    cursorDo .open c x bs = cursorFinish x (Gen.Scope.openCursor (curCall c) bs) ∧
+    cursorDo .close c x bs = cursorFinish x (Gen.Scope.closeCursor (curCall c) bs) ∧
+    cursorDo .fetch c x bs = cursorFinish x (Gen.Scope.fetchCursor (curCall c) bs) := by
+  obtain ⟨h1, h2, h3⟩ := gen_cursorWalks_eq_find c bs
+  rw [h1, h2, h3]
+  exact ⟨cursorDo_eq_find _ _ _ _, cursorDo_eq_find _ _ _ _, cursorDo_eq_find _ _ _ _⟩
+
+/-- the statements in front of the loops, which the translator does not translate, are the reviewed ones: an
+    evaluation of the assigned value, upper-casing of a table name, variable declarations — nothing that touches blocks -/
+theorem gen_prefixes_reviewed : Gen.Scope.prefixes =
+  [("GetVariable", []),
+   ("SubstituteVariable", ["val, err = Evaluate(ctx, rs, expr.Value)", "if err != nil { return }"]),
+   ("SubstituteVariableDirectly", []),
+   ("DisposeVariable", []),
+   ("TemporaryTableExists", ["identifier = strings.ToUpper(identifier)"]),
+   ("GetTemporaryTable", ["fileIdentifier := strings.ToUpper(identifier.Literal)"]),
+   ("ReplaceTemporaryTable", []),
+   ("DisposeTemporaryTable", []),
+   ("OpenCursor", ["var err error"]),
+   ("CloseCursor", []),
+   ("FetchCursor", ["var values []value.Primary", "var err error"]),
+   ("DisposeCursor", []),
+   ("CursorIsOpen", []),
+   ("GetFunction", []),
+   ("DisposeFunction", [])] := by decide
+
+/-- the bookkeeping of blocks is the reviewed text: CreateChild puts ONE block from the pool in front of the parent's
+    blocks (blocks[0] = GetBlockScope(), blocks[i+1] = rs.Blocks[i]) — St.push; CurrentBlock is Blocks[0];
+    CloseCurrentBlock puts exactly that block back, cleared — St.pop; ClearCurrentBlock — St.clearCurrent -/
+theorem gen_bookkeeping_reviewed : Gen.Scope.bookkeeping =
+  [("ReferenceScope.CreateChild", ["{", "blocks", ":=", "make([]BlockScope,", "len(rs.Blocks)+1)", "blocks[0]", "=", "GetBlockScope()", "for", "i", ":=", "range", "rs.Blocks", "{", "blocks[i+1]", "=", "rs.Blocks[i]", "}", "return", "&ReferenceScope{", "Tx:", "rs.Tx,", "Blocks:", "blocks,", "nodes:", "nil,", "cachedFilePath:", "rs.cachedFilePath,", "now:", "rs.now,", "RecursiveTable:", "rs.RecursiveTable,", "RecursiveTmpView:", "rs.RecursiveTmpView,", "RecursiveCount:", "rs.RecursiveCount,", "}", "}"]),
+   ("ReferenceScope.Global", ["{", "return", "rs.Blocks[len(rs.Blocks)-1]", "}"]),
+   ("ReferenceScope.CurrentBlock", ["{", "return", "rs.Blocks[0]", "}"]),
+   ("ReferenceScope.ClearCurrentBlock", ["{", "rs.CurrentBlock().Clear()", "}"]),
+   ("ReferenceScope.CloseCurrentBlock", ["{", "PutBlockScope(rs.CurrentBlock())", "}"]),
+   ("GetBlockScope", ["{", "scope", ":=", "blockScopePool.Get().(BlockScope)", "return", "scope", "}"]),
+   ("PutBlockScope", ["{", "scope.Clear()", "blockScopePool.Put(scope)", "}"]),
+   ("BlockScope.Clear", ["{", "scope.Variables.Clear()", "scope.TemporaryTables.Clear()", "scope.Cursors.Clear()", "scope.Functions.Clear()", "}"]),
+   ("NewReferenceScope", ["{", "return", "NewReferenceScopeWithBlock(tx,", "GetBlockScope())", "}"]),
+   ("NewReferenceScopeWithBlock", ["{", "return", "&ReferenceScope{", "Tx:", "tx,", "Blocks:", "[]BlockScope{scope},", "nodes:", "nil,", "}", "}"]),
+   ("Processor.NewChildProcessor", ["{", "return", "&Processor{", "Tx:", "proc.Tx,", "ReferenceScope:", "proc.ReferenceScope.CreateChild(),", "}", "}"]),
+   ("Processor.Close", ["{", "proc.ReferenceScope.CloseCurrentBlock()", "}"])] := by decide
+
+/-- which statements run in a child block and how it is released, as the model has it: executeChild (IF / CASE
+    bodies): NewChildProcessor … child.Close on the one path; While / WhileInCursor: NewChildProcessor, defer Close,
+    ClearCurrentBlock at the head of every iteration; a function call: CreateChild, defer CloseCurrentBlock,
+    parameters into Blocks[0] of the child -/
+theorem gen_blockHandling_reviewed : Gen.Scope.blockHandling =
+  [("Processor.execute", ["defer func{", "if{", "recover", "if{", "NewFatalError", "}", "}", "}", "for{", "proc.ExecuteStatement", "if{", "return ", "}", "if{", "break", "}", "}", "return "]),
+   ("Processor.executeChild", ["proc.NewChildProcessor", "child.execute", "if{", "}", "child.Close", "return flow,err"]),
+   ("Processor.IfStmt", ["len", "make", "append", "for{", "append", "}", "for{", "Evaluate", "if{", "return TerminateWithError,err", "}", "p.Ternary", "if{", "proc.executeChild", "return call", "}", "}", "if{", "proc.executeChild", "return call", "}", "return Terminate,nil"]),
+   ("Processor.Case", ["if{", "Evaluate", "if{", "return TerminateWithError,err", "}", "}", "for{", "Evaluate", "if{", "return TerminateWithError,err", "}", "if{", "cond.Ternary", "}", "else{", "proc.Tx.Flags.GetTimeLocation", "value.Equal", "}", "if{", "proc.executeChild", "return call", "}", "}", "if{", "return Terminate,nil", "}", "proc.executeChild", "return call"]),
+   ("Processor.While", ["proc.NewChildProcessor", "defer childProc.Close", "for{", "childProc.ReferenceScope.ClearCurrentBlock", "Evaluate", "if{", "return TerminateWithError,err", "}", "p.Ternary", "if{", "break", "}", "childProc.execute", "if{", "return TerminateWithError,err", "}", "switch{", "case Break", "return Terminate,nil", "case Exit", "return Exit,nil", "case Return", "return Return,nil", "}", "}", "return Terminate,nil"]),
+   ("Processor.WhileInCursor", ["proc.NewChildProcessor", "defer childProc.Close", "for{", "childProc.ReferenceScope.ClearCurrentBlock", "if{", "len", "make", "for{", "}", "childProc.ReferenceScope.DeclareVariable", "if{", "return TerminateWithError,err", "}", "}", "FetchCursor", "if{", "return TerminateWithError,err", "}", "if{", "break", "}", "childProc.execute", "if{", "return TerminateWithError,err", "}", "switch{", "case Break", "return Terminate,nil", "case Exit", "return Exit,nil", "case Return", "return Return,nil", "}", "}", "return Terminate,nil"]),
+   ("UserDefinedFunction.Execute", ["scope.CreateChild", "defer childScope.CloseCurrentBlock", "fn.execute", "return call"]),
+   ("UserDefinedFunction.ExecuteAggregate", ["scope.CreateChild", "defer childScope.CloseCurrentBlock", "childScope.AddPseudoCursor", "if{", "return nil,err", "}", "fn.execute", "return call"]),
+   ("UserDefinedFunction.execute", ["len", "fn.CheckArgsLen", "if{", "return nil,err", "}", "for{", "len", "if{", "scope.Blocks[0].Variables.Add", "if{", "return nil,err", "}", "}", "else{", "Evaluate", "if{", "return nil,err", "}", "scope.DeclareVariableDirectly", "if{", "return nil,err", "}", "}", "}", "NewProcessorWithScope", "proc.execute", "if{", "return nil,err", "}", "if{", "value.NewNull", "}", "return ret,nil"])] := by decide
+
+/-- ExecuteStatement hands IF / CASE / WHILE / WHILE IN to the block-opening handlers, SOURCE / EXECUTE / EXECUTE
+    prepared to proc.execute (same processor, current block), and every declaration / disposal / cursor statement
+    to the walk of the session scope that the theorems above are about -/
+theorem gen_dispatch_reviewed :
+    Gen.Scope.dispatch.filter (fun p => p.1 ∈ ["parser.Case", "parser.If", "parser.While", "parser.WhileInCursor", "parser.Source", "parser.Execute", "parser.ExecuteStatement", "parser.VariableDeclaration", "parser.VariableSubstitution", "parser.DisposeVariable", "parser.FunctionDeclaration", "parser.DisposeFunction", "parser.AggregateDeclaration", "parser.CursorDeclaration", "parser.OpenCursor", "parser.CloseCursor", "parser.DisposeCursor", "parser.FetchCursor", "parser.ViewDeclaration", "parser.DisposeView", "parser.FlowControl", "parser.Exit", "parser.Return"]) =
+  [("parser.AggregateDeclaration", "proc.ReferenceScope.DeclareAggregateFunction"),
+   ("parser.Case", "proc.Case"),
+   ("parser.CloseCursor", "proc.ReferenceScope.CloseCursor"),
+   ("parser.CursorDeclaration", "proc.ReferenceScope.DeclareCursor"),
+   ("parser.DisposeCursor", "proc.ReferenceScope.DisposeCursor"),
+   ("parser.DisposeFunction", "proc.ReferenceScope.DisposeFunction"),
+   ("parser.DisposeVariable", "proc.ReferenceScope.DisposeVariable"),
+   ("parser.DisposeView", "proc.ReferenceScope.DisposeTemporaryTable"),
+   ("parser.Execute", "ParseExecuteStatements proc.execute"),
+   ("parser.ExecuteStatement", "proc.Tx.PreparedStatements.Get proc.execute ContextForPreparedStatement NewReplaceValues"),
+   ("parser.Exit", "int ex.Code.(*value.Integer).Raw NewForcedExit"),
+   ("parser.FetchCursor", "FetchCursor"),
+   ("parser.FlowControl", ""),
+   ("parser.FunctionDeclaration", "proc.ReferenceScope.DeclareFunction"),
+   ("parser.If", "proc.IfStmt"),
+   ("parser.OpenCursor", "proc.ReferenceScope.OpenCursor"),
+   ("parser.Return", "Evaluate"),
+   ("parser.Source", "Source proc.execute"),
+   ("parser.VariableDeclaration", "proc.ReferenceScope.DeclareVariable"),
+   ("parser.VariableSubstitution", "proc.ReferenceScope.SubstituteVariable"),
+   ("parser.ViewDeclaration", "DeclareView"),
+   ("parser.While", "proc.While"),
+   ("parser.WhileInCursor", "proc.WhileInCursor")] := by decide
 
 /-! ## non-vacuity: concrete procedures (variables @v0…, functions fn0…), run by `decide` -/
 
